@@ -413,6 +413,8 @@ class Body:
             return ("constx", op["text"])
         if "val" in op:
             return ("const", op["val"])
+        if "static" in op:
+            return ("static", op["static"])
         txt = op["text"]
         m = re.match(r'^(?:const )?"(.*)"$', txt, re.S)
         if m:
@@ -859,10 +861,9 @@ def norm_cond(e, truth):
     op = None
     if e[0] == "binop" and e[1] in CMP:
         op, l, r = CMP[e[1]], e[2], e[3]
-    elif e[0] == "call" and len(e[2]) == 2 and (e[1].endswith("PartialEq>::eq") or e[1].endswith("::PartialEq::eq")
-                                                 or e[1].endswith("PartialEq::eq")):
+    elif e[0] == "call" and len(e[2]) == 2 and e[1].split("::")[-1] == "eq" and "PartialEq" in e[1]:
         op, l, r = "==", e[2][0], e[2][1]
-    elif e[0] == "call" and len(e[2]) == 2 and (e[1].endswith("PartialEq>::ne") or e[1].endswith("PartialEq::ne")):
+    elif e[0] == "call" and len(e[2]) == 2 and e[1].split("::")[-1] == "ne" and "PartialEq" in e[1]:
         op, l, r = "!=", e[2][0], e[2][1]
     elif e[0] == "call" and len(e[2]) == 2 and e[1].split("::")[-1] in ("lt", "le", "gt", "ge") and "PartialOrd" in e[1]:
         op = {"lt": "<", "le": "<=", "gt": ">", "ge": ">="}[e[1].split("::")[-1]]
